@@ -276,7 +276,8 @@ impl<L: LSPLang> Backend<L> {
   async fn on_change(&self, params: DidChangeTextDocumentParams) -> Option<()> {
     let text_doc = params.text_document;
     let uri = text_doc.uri.as_str();
-    let text = &params.content_changes[0].text;
+    // full sync: the last change holds the resulting document; ignore an empty change list
+    let text = &params.content_changes.last()?.text;
     self
       .client
       .log_message(MessageType::LOG, "Parsing changed doc.")
@@ -292,11 +293,21 @@ impl<L: LSPLang> Backend<L> {
       version: text_doc.version,
       root,
     };
+    // release the map guard before awaiting: a handler polled meanwhile would otherwise
+    // block the executor thread in `get_mut` forever
+    let diagnostics = self
+      .get_diagnostics(&text_doc.uri, &versioned)
+      .unwrap_or_default();
+    let version = versioned.version;
+    drop(versioned);
     self
       .client
       .log_message(MessageType::LOG, "Publishing diagnostics.")
       .await;
-    self.publish_diagnostics(text_doc.uri, &versioned).await;
+    self
+      .client
+      .publish_diagnostics(text_doc.uri, diagnostics, Some(version))
+      .await;
     Some(())
   }
   async fn on_close(&self, params: DidCloseTextDocumentParams) {
